@@ -381,9 +381,7 @@ func makeSingleDeltaRule(rule ast.Clause, i int) ast.Clause {
 			newpremises = append(newpremises, subgoal)
 		}
 	}
-	clause := ast.NewClause(rule.Head, newpremises)
-	clause.Transform = rule.Transform
-	return clause
+	return ast.Clause{Head: rule.Head, HeadTime: rule.HeadTime, Premises: newpremises, Transform: rule.Transform}
 }
 
 // makeDeltaRules creates delta rules to check if newly added facts lead to new derivations.
